@@ -6,6 +6,7 @@ use crate::util::*;
 use nalgebra::{Isometry3, Matrix6, Translation3, UnitQuaternion, Vector3, Vector6};
 use rs_opw_kinematics::jacobian::Jacobian;
 use rs_opw_kinematics::kinematic_traits::Kinematics;
+use std::f64::consts::PI;
 use std::sync::Arc;
 
 /// recover the matrix through torques_from_vector(e_k) = k-th row
@@ -20,7 +21,10 @@ pub fn main(tier: &str, seed: u64, n_override: Option<u64>) {
     let mut rng = Rng::new(seed ^ 0xC15);
     for idx in 0..n {
         let r = random_robot(&mut rng, idx, false, None);
-        let q = origin_joints(&mut rng, &r, PoseKind::Reachable);
+        let mut q = origin_joints(&mut rng, &r, PoseKind::Reachable);
+        // a Jacobian exists everywhere: a fifth of the cases has the wrist nearly straight (tool point millimetres to micrometres from the
+        // J4 axis: a short lever arm, a small but non-zero column)
+        if idx % 5 == 2 { let mut qm = r.to_model(&q); let e = 10f64.powf(rng.range(-5.0, -1.5)) * if rng.bool() { 1.0 } else { -1.0 }; qm[4] = if rng.below(4) == 0 { PI + e } else { e }; q = r.from_model(&qm); }
         let eps = [1e-7, 1e-6, 1e-5, 3e-6][rng.below(4) as usize];
         let ws: Vec<W> = match idx % 4 { 0 => vec![], 1 => vec![W::Tool(random_iso(&mut rng, false))], 2 => vec![W::Base(random_iso(&mut rng, false))],
             _ => vec![W::Base(random_iso(&mut rng, false)), W::Tool(random_iso(&mut rng, false))] };
@@ -54,7 +58,8 @@ pub fn main(tier: &str, seed: u64, n_override: Option<u64>) {
             for c in 0..3 { g[(c, i)] = lin[c]; g[(3 + c, i)] = axis[c]; }
         }
         let reach = tip.norm() + 2.0;
-        let tol = 5.0 * eps * reach + 4e-9 / eps * 1e-3 + 1e-8;
+        // truncation (second derivative <= reach) + rounding of the difference quotient (positions of a few metres: 1e-15 / eps) + slack
+        let tol = 5.0 * eps * reach + 2e-13 / eps * reach + 1e-8;
         let diff = (m - g).abs().max();
         let mut direct = "ok".to_string(); let mut class = String::new();
         let mut fail = |c: &str| { if direct == "ok" { direct = "fail".into(); class = c.into(); } };
@@ -81,7 +86,16 @@ pub fn main(tier: &str, seed: u64, n_override: Option<u64>) {
         let iso = Isometry3::from_parts(Translation3::new(f[0], f[1], f[2]), UnitQuaternion::from_scaled_axis(Vector3::new(f[3], f[4], f[5])));
         let tq2 = jac.torques(&iso);
         if (0..6).any(|i| (tq[i] - tq2[i]).abs() > 1e-9 * (1.0 + want.norm())) { fail("C15.torque_entry_points_disagree"); }
-        println!("{}", Obj::new().s("prop", "C15").i("case", idx as i64).raw("robot", &r.json()).fs("q", &q).f("eps", eps).i("wrappers", ws.len() as i64)
+        // recorded for the model replay (torques / velocities at Q): twist = wrench, try_inverse's answer read out column by column
+        let mat = |mm: &Matrix6<f64>| format!("[{}]", (0..6).map(|a| fxs(&(0..6).map(|b| mm[(a, b)]).collect::<Vec<f64>>())).collect::<Vec<_>>().join(","));
+        let use_rec = if idx % 8 == 0 && cond < 1e4 {
+            let mut ji = Matrix6::zeros(); let mut okinv = true;
+            for kk in 0..6 { let mut e = Vector6::zeros(); e[kk] = 1.0; match jac.velocities_from_vector(&e) { Ok(c) => { for a in 0..6 { ji[(a, kk)] = c[a]; } } Err(_) => okinv = false } }
+            let vel = jac.velocities_from_vector(&x).ok();
+            Obj::new().raw("m", &mat(&m)).raw("jinv", &if okinv { mat(&ji) } else { "null".to_string() }).fs("x", x.as_slice())
+                .raw("vel", &match vel { Some(v) => fxs(&v), None => "null".to_string() }).fs("tq", &tq).done()
+        } else { "null".to_string() };
+        println!("{}", Obj::new().s("prop", "C15").raw("use", &use_rec).i("case", idx as i64).raw("robot", &r.json()).fs("q", &q).f("eps", eps).i("wrappers", ws.len() as i64)
             .d("diff", diff).d("tol", tol).d("cond", cond).raw("jac", &if ws.is_empty() { format!("[{}]", (0..6).map(|a| fxs(&(0..6).map(|b| m[(a, b)]).collect::<Vec<f64>>())).collect::<Vec<_>>().join(",")) } else { "null".to_string() }).s("direct", &direct).s("class", &class).done());
     }
 }
